@@ -202,7 +202,10 @@ class RelayRun(object):
 
   # ---- projection -----------------------------------------------------------------
   def item_id(self, metric, datapoint):
-    return int(datapoint[1])
+    # the id travels in the metric name; the value is free to be awkward (inf, huge, negative zero)
+    if isinstance(metric, bytes):
+      metric = metric.decode('ascii')
+    return int(metric.rsplit('m', 1)[1])
 
   def decode_wire(self, d):
     out = []
@@ -214,12 +217,12 @@ class RelayRun(object):
         while pos + 4 <= len(raw):
           (n,) = struct.unpack('!L', raw[pos:pos + 4])
           batch = pickle.loads(raw[pos + 4:pos + 4 + n])
-          out.append([int(dp[1]) for (m, dp) in batch])
+          out.append([self.item_id(m, dp) for (m, dp) in batch])
           pos += 4 + n
       else:
         for line in raw.split(b'\r\n'):
           if line:
-            out.append([int(float(line.split()[1]))])
+            out.append([self.item_id(line.split()[0], None)])
     return out
 
   def project(self):
@@ -313,11 +316,16 @@ class RelayRun(object):
       self.nitems += 1
       i = self.nitems
       metric = 'relay.test.m%d' % i
-      dp = (1000.0 + i, float(i))
+      value = [float(i), float('inf'), float(i), -0.0, float('-inf'), 1e300, float(i)][i % 7]
+      dp = (1000.0 + i, value)
       if name == 'Arrive':
         producing = [c2 for c2 in self.recv if self.recv[c2][1].producerState == 'producing']
         if producing:
-          line = ('%s %d %d\n' % (metric, i, 1000 + i)).encode('ascii')
+          if i % 3 == 0:
+            # a line with a NaN / infinite timestamp right before it: skipped by the listener, never queued
+            junk = ('relay.junk.m999 1 %s\n' % ['nan', 'inf', '-inf'][i % 9 // 3]).encode('ascii')
+            self.recv[producing[0]][0].dataReceived(junk)
+          line = ('%s %r %d\n' % (metric, value, 1000 + i)).encode('ascii')
           self.recv[producing[0]][0].dataReceived(line)
         else:
           rm.events.metricReceived(metric, dp)
